@@ -517,6 +517,15 @@ def closed_form_coef(case):
 def o_closed_form(case):
     """analytic mode == independently written closed form (half-space exponential decay, linear mean)"""
     base = dict(base_of(case), analytic=True, precision="double")
+    pre = (case.get("par") or {}).get("prelude_grid")
+    if pre:
+        # a resolution study: the same domain, halo and mode counts on ANOTHER grid just before (whatever that solve leaves
+        # behind - wavenumber tables, workspaces - must not reach this one)
+        ny0, nx0 = np.asarray(base["q"]).shape
+        try:
+            solve3(dict(base, q=np.ones((max(ny0 + pre[0], 2), max(nx0 + pre[1], 2)))))
+        except Exception:  # noqa: BLE001
+            pass
     a = solve3(base)
     p, q = spec_fields(base, closed_form_coef(base))
     tol = 1e-10
@@ -615,6 +624,10 @@ def run_C05(rng, tier, deep):
     for _ in range(budget(tier, deep, 30, 300)):
         c = random_case(rng, analytic=True)
         c["profiles"] = uniform_profiles(rng, len(c["z"]))
+        if rng.random() < 0.4:
+            c["par"] = dict(c.get("par") or {}, prelude_grid=[int(rng.integers(-2, 4)) or 1, int(rng.integers(-2, 4)) or 2])
+            if rng.random() < 0.6:
+                c["modes"] = (2, 2)      # not clipped on either grid
         run_oracle(st, o_closed_form, c)
     for _ in range(budget(tier, deep, 8, 60)):
         run_oracle(st, o_third_order, resolved_uniform_case(rng))
@@ -625,7 +638,7 @@ def run_C05(rng, tier, deep):
         c["par"]["levels"] = [int(x) for x in (rng.permutation(n + 1)[:k] if rng.random() < 0.7 else rng.integers(0, n + 1, size=k))]
         run_oracle(st, o_numeric_levels, c)
     return finish(st, "uniform-profile requests (analytic and numeric, all halo/level/mode kinds); closed-form oracle = independent direct spectral synthesis "
-                  "in numpy; order oracle = numeric vs analytic at n, 2n, 4n layers in the resolved regime (|mu dz| <= 0.5)", deep, TOL)
+                  "in numpy (also right after the same domain / halo / modes on another grid); order oracle = numeric vs analytic at n, 2n, 4n layers in the resolved regime (|mu dz| <= 0.5)", deep, TOL)
 
 
 # ------------------------------------------------------------ C06 translation equivariance
